@@ -152,6 +152,10 @@ func c15run(c *fw.Ctx, idx int) {
 		c15canary(c, idx, r)
 		return
 	}
+	if idx%16 == 14 {
+		c15sequence(c, idx, r)
+		return
+	}
 	cs := c15case{Entry: c15entries[idx%len(c15entries)], Exts: c15extLists[r.Intn(len(c15extLists))], RefDir: c15dirs[r.Intn(4)]}
 	if cs.Entry == "get" {
 		cs.RefDir = "/"
@@ -320,6 +324,72 @@ func c15shape(sp string) string {
 		s = strings.ReplaceAll(s, w, "w")
 	}
 	return s
+}
+
+// c15sequence: several references on ONE Set, from directories and with names whose concatenations collide
+// ("/a"+"bx.jet" == "/ab"+"x.jet"): the same spelling must keep resolving against its own referrer whatever
+// was resolved before (the same template is always requested under the same path).
+func c15sequence(c *fw.Ctx, idx int, r *rand.Rand) {
+	dirs := []string{"/", "/a/", "/ab/", "/a/b/", "/abc/"}
+	names := []string{"x", "bx", "b/x", "ax", "c/x", "bc/x", "abc/x", "../x", "../ax"}
+	files := map[string]string{}
+	type ref struct{ dir, name, path string }
+	var refs []ref
+	for _, d := range dirs {
+		for k, n := range names {
+			target := c15canon(d, n+".jet")
+			files[target] = "[F:" + target + "]"
+			rp := fmt.Sprintf("%sref%d.jet", d, k)
+			files[rp] = fmt.Sprintf("<{{include %q}}>", n+".jet")
+			refs = append(refs, ref{d, n, rp})
+		}
+	}
+	dev := idx%32 < 16
+	opts := []jet.Option{jx.NoEscape}
+	if dev {
+		opts = append(opts, jet.InDevelopmentMode())
+	}
+	inner := jet.NewInMemLoader()
+	for k, v := range files {
+		inner.Set(k, v)
+	}
+	ld := rec.NewLoader(inner)
+	set := jet.NewSet(ld, opts...)
+	var hist []string
+	c.Begin(idx, map[string]interface{}{"sequence": "several references on one Set", "development_mode": dev})
+	defer c.End()
+	n := 4 + r.Intn(8)
+	for i := 0; i < n; i++ {
+		var want string
+		var res jx.Res
+		ld.Log.Reset()
+		if r.Intn(3) == 0 {
+			// GetTemplate of a relative name: resolves against the root
+			nm := names[r.Intn(len(names))] + ".jet"
+			hist = append(hist, "GetTemplate("+nm+")")
+			want = "[F:" + c15canon("/", nm) + "]"
+			res = jx.RunSet(set, nm, nil, nil)
+		} else {
+			rf := refs[r.Intn(len(refs))]
+			hist = append(hist, fmt.Sprintf("Execute(%s: include %q)", rf.path, rf.name+".jet"))
+			want = "<[F:" + c15canon(rf.dir, rf.name+".jet") + "]>"
+			res = jx.RunSet(set, rf.path, nil, nil)
+		}
+		c.Count("sequence_lookups", 1)
+		for _, call := range ld.Log.Snapshot() {
+			if !c15clean(call.Path) {
+				c.Journal(map[string]interface{}{"history": hist})
+				c.Violation("c15:sequence:unclean-path-to-loader", "", fmt.Sprintf("Loader.%s(%q)", call.Op, call.Path))
+				return
+			}
+		}
+		if res.Failed() || res.Out != want {
+			c.Journal(map[string]interface{}{"history": hist, "development_mode": dev})
+			c.Violation("c15:sequence:wrong-template-used", "", fmt.Sprintf("step %d rendered %s, want %q", i, res, want))
+			return
+		}
+	}
+	c.Distinct(fmt.Sprintf("sequence|%v|%d", dev, n))
 }
 
 // c15canary: a directory-rooted loader can never be steered outside its directory.
